@@ -158,6 +158,21 @@ def mat_diff(a, b):
 
 # ----------------------------------------------------------------------------------------------- one case
 def run_case(ck, case, reqs, pending):
+    try:
+        _run_case(ck, case, reqs, pending)
+    except (ArithmeticError, KeyError, IndexError, ValueError, TypeError, AttributeError) as ex:
+        # the real functions are total on frames with at least one cell; an exception is a failure of the property
+        import traceback
+        tb = traceback.extract_tb(ex.__traceback__)
+        where = next((f"{f.filename.split('/')[-1]}:{f.lineno}" for f in reversed(tb) if "/forsys/" in f.filename), None)
+        if where is None:
+            raise
+        ck.fail("stress_tensor / calculate_stress_tensor return tensors for every frame with cells",
+                f"raises {type(ex).__name__}: {ex} at {where}", case)
+        ck.case(case, nontrivial=False)
+
+
+def _run_case(ck, case, reqs, pending):
     built = build_case(ck, case)
     if built is None:
         return
